@@ -55,7 +55,8 @@ class InterpolatedValue:
     def __init__(self, value):
         self.value = value
         self.is_sandboxed = is_sandbox_result(value)
-        if isinstance(value, Exception):
+        # SystemExit (a student call that ended in sys.exit()) is an error too, although it is not an Exception
+        if isinstance(value, BaseException):
             self.is_error = True
         # Sandboxes with exceptions become their exception
         elif isinstance(value, Sandbox) and value.exception:
